@@ -366,6 +366,9 @@ func runC13(in input) vh.Result {
 		if !e.c.modelled() {
 			modelled = false
 		}
+		if e.c.K == "fence" {
+			needData = true // a fence with an explicit target stages an outbox row without a configured migration
+		}
 	}
 	keys := chanAlphabetOf(log)
 	obs := c13Obs{}
